@@ -7,12 +7,13 @@ The theorems audited by the check are listed in harness/props/c19.py.
 -/
 import PydlVerif.Lemmas.Wave
 import PydlVerif.Lemmas.WaveRev
+import PydlVerif.Lemmas.WaveFit
 import Mathlib.Analysis.SpecialFunctions.Log.Basic
 
 set_option linter.unusedSectionVars false
 
 namespace PydlVerif.C19
-open PydlVerif PydlVerif.Wave
+open PydlVerif PydlVerif.Wave PydlVerif.WaveFit PydlVerif.Trace
 
 section
 variable {K : Type} [Field K] [LinearOrder K] [IsStrictOrderedRing K] [FloorRing K]
@@ -568,6 +569,165 @@ theorem bandflux_reverse_invariant_masked (ld : List K) (curve : List (K × K)) 
     rw [maskInterp_reverse m f hm,
       filterMean_reverse _ _ (by rw [maskInterp_length m f hm, weightsOf_length ld x0 f0 rest w h1, h2])]
 
+
+/-! ### filter_thru end to end: the trace-set fit inside the model (extension round 2) -/
+
+/-- **the end-to-end function is `bandFlux` on the fitted image the model computes**: whenever
+`filter_thru` (model: wavelength image, flux, mask, curves, `toair` only - the cubic Legendre trace-set fit
+of `d log10 λ` computed by the C13 model) returns, the fitted image `lds` exists, the result is
+`filterThru` with that image, and entry `[t][b]` is `bandFlux lds[t] curves[b] newwave[t] mask[t] flux[t]` -
+so every `filter_*` / `bandflux_*` theorem above applies to the whole function -/
+theorem e2e_is_bandFlux (log10 : K → K) (solve : Array (Array K) → Array K → R (Array K)) (toair : Bool)
+    (curves : List (List (K × K))) (wave : List (List K)) (masks : Option (List (List Bool)))
+    (flux res : List (List K)) (h : filterThruE2E log10 solve toair curves wave masks flux = .ok res) :
+    ∃ lds ms, fittedImg log10 solve (flux.headD []).length (toairImg toair wave) = .ok lds ∧
+      maskRows flux.length masks = .ok ms ∧
+      filterThru toair lds curves wave masks flux = .ok res ∧
+      ∀ (t : ℕ) (row : List K), res[t]? = some row → ∀ (b : ℕ) (v : K), row[b]? = some v →
+        ∃ ld w m f c, lds[t]? = some ld ∧ (toairImg toair wave)[t]? = some w ∧ ms[t]? = some m ∧
+          flux[t]? = some f ∧ curves[b]? = some c ∧ bandFlux ld c w m f = .ok v := by
+  obtain ⟨lds, h1, h2⟩ := e2e_ok_aux log10 solve toair curves wave masks flux res h
+  have h2' := h2
+  unfold filterThru at h2'
+  obtain ⟨ms, hms, h3⟩ := C13.bind_ok h2'
+  refine ⟨lds, ms, h1, hms, h2, ?_⟩
+  intro t row ht b v hb
+  obtain ⟨ld, w, m, f, e1, e2, e3, e4, hrow⟩ := filterRows_entry curves lds _ ms flux res h3 t row ht
+  obtain ⟨c, e5, hband⟩ := filterThruRow_entry ld curves w m f row hrow b v hb
+  exact ⟨ld, w, m, f, c, e1, e2, e3, e4, e5, hband⟩
+
+/-- a failure of the fit is the failure of the function (nothing is defaulted) -/
+theorem e2e_fit_error (log10 : K → K) (solve : Array (Array K) → Array K → R (Array K)) (toair : Bool)
+    (curves : List (List (K × K))) (wave : List (List K)) (masks : Option (List (List Bool)))
+    (flux : List (List K)) (e : String)
+    (h : fittedImg log10 solve (flux.headD []).length (toairImg toair wave) = .error e) :
+    filterThruE2E log10 solve toair curves wave masks flux = .error e := by
+  unfold filterThruE2E
+  rw [h]; rfl
+
+/-- **pixel differences of a log-linear solution**: `log10 λ_i = c0 + c1·i` ⇒ `diffy` is the constant `c1` -/
+theorem loglinear_diffy (log10 : K → K) (c0 c1 : K) (w : List K)
+    (h : ∀ i (hi : i < w.length), log10 w[i] = c0 + c1 * (i : K)) :
+    logDiffY log10 w = List.replicate (w.length - 1) c1 := by
+  unfold logDiffY
+  have := zipWith_tail_affine c0 c1 (w.map log10) 0 (by
+    intro i hi
+    simp only [List.length_map] at hi
+    simp only [List.getElem_map, Nat.zero_add]
+    exact h i hi)
+  simpa using this
+
+/-- **closed form for a constant fitted pixel size** (what the fit returns for a log-linear solution):
+the band flux is `Σ resp(λ_i)·f_i / Σ resp(λ_i)`, `resp = np.interp(·, curve)` - independent of the
+magnitude and the sign of the pixel size `c1 ≠ 0` (ascending or descending solution) -/
+theorem bandflux_loglinear_closed (c1 x0 f0 : K) (rest : List (K × K)) (w : List K) (mask : Option (List Bool))
+    (f : List K) (hc : c1 ≠ 0) (h2 : f.length = w.length) (hs : 0 < (w.map (npInterp x0 f0 rest)).sum) :
+    bandFlux (List.replicate w.length c1) ((x0, f0) :: rest) w mask f
+      = .ok ((List.zipWith (· * ·) (match mask with | none => f | some m => maskInterp m f)
+               (w.map (npInterp x0 f0 rest))).sum / (w.map (npInterp x0 f0 rest)).sum) := by
+  rw [bandFlux_ok _ x0 f0 rest w mask f (by simp) h2, weightsOf_const,
+    filterMean_scale _ (abs_pos.mpr hc) _ _ hs]
+
+
+/-- **for a log-linear wavelength solution the fitted pixel size is the constant `c1`**: if
+`log10 λ[t][i] = c0 t + c1 t · i` on every trace (`nx ≥ 5` pixels), the image
+`traceset2xy(xy2traceset(diffx, diffy, ncoeff=4, xmin=0, xmax=nx-1))[1]` the model computes is `c1 t` at all
+`nx` pixels of trace `t`.  Uses C13's `funcFit_exact` (exact data are recovered), the contract of
+`solve` and `fitPD` (the 4×4 Legendre normal matrix on ≥ 4 equally spaced pixels is positive definite -
+proved, not assumed). -/
+theorem fit_loglinear (log10 : K → K) (solve : Array (Array K) → Array K → R (Array K))
+    (hsolve : C13.SolveContract solve) (nx : ℕ) (hnx : 5 ≤ nx) (nw : List (List K)) (c0 c1 : ℕ → K)
+    (hlen : ∀ t (ht : t < nw.length), nw[t].length = nx)
+    (hlog : ∀ t (ht : t < nw.length) i (hi : i < nw[t].length), log10 (nw[t][i]) = c0 t + c1 t * (i : K))
+    (lds : List (List K)) (h : fittedImg log10 solve nx nw = .ok lds) :
+    lds.length = nw.length ∧ ∀ t (ht : t < lds.length), lds[t] = List.replicate nx (c1 t) :=
+  fittedImg_const log10 solve hsolve nx (by omega) nw c1
+    (fun t ht => by rw [loglinear_diffy log10 (c0 t) (c1 t) nw[t] (hlog t ht), hlen t ht])
+    (fitPD nx hnx) lds h
+
+/-- **closed form of filter_thru for a log-linear solution, end to end**: with
+`log10 λ[t][i] = c0 t + c1 t · i` (`c1 t ≠ 0`, ascending or descending; λ after the optional `toair`
+conversion), whenever the function returns, entry `[t][b]` is the band flux for the constant pixel size and,
+in every band whose curve the wavelengths overlap (`Σ resp(λ_i) > 0`), equals
+`Σ resp(λ_i)·f_i / Σ resp(λ_i)` with `resp = np.interp(·, curve_b)` and `f` the (mask-interpolated) flux -
+independent of the magnitude and sign of `c1`.  Nothing is supplied from outside the model but `log10` and
+the linear solver with its contract. -/
+theorem e2e_loglinear_closed (log10 : K → K) (solve : Array (Array K) → Array K → R (Array K))
+    (hsolve : C13.SolveContract solve) (toair : Bool) (curves : List (List (K × K))) (wave : List (List K))
+    (masks : Option (List (List Bool))) (flux res : List (List K)) (nx : ℕ) (hnx : 5 ≤ nx)
+    (c0 c1 : ℕ → K) (hc1 : ∀ t, c1 t ≠ 0) (hnxf : (flux.headD []).length = nx)
+    (hlen : ∀ t (ht : t < (toairImg toair wave).length), (toairImg toair wave)[t].length = nx)
+    (hlog : ∀ t (ht : t < (toairImg toair wave).length) i (hi : i < (toairImg toair wave)[t].length),
+      log10 ((toairImg toair wave)[t][i]) = c0 t + c1 t * (i : K))
+    (h : filterThruE2E log10 solve toair curves wave masks flux = .ok res) :
+    ∀ (t : ℕ) (row : List K), res[t]? = some row → ∀ (b : ℕ) (v : K), row[b]? = some v →
+      ∃ w m f c, (toairImg toair wave)[t]? = some w ∧ flux[t]? = some f ∧ curves[b]? = some c ∧
+        bandFlux (List.replicate w.length (c1 t)) c w m f = .ok v ∧
+        ∀ x0 f0 rest, c = (x0, f0) :: rest → 0 < (w.map (npInterp x0 f0 rest)).sum →
+          v = (List.zipWith (· * ·) (match m with | none => f | some mm => maskInterp mm f)
+                (w.map (npInterp x0 f0 rest))).sum / (w.map (npInterp x0 f0 rest)).sum := by
+  obtain ⟨lds, ms, h1, -, -, hent⟩ := e2e_is_bandFlux log10 solve toair curves wave masks flux res h
+  rw [hnxf] at h1
+  obtain ⟨-, hrows⟩ := fit_loglinear log10 solve hsolve nx hnx _ c0 c1 hlen hlog lds h1
+  intro t row ht b v hb
+  obtain ⟨ld, w, m, f, c, e1, e2, -, e4, e5, hband⟩ := hent t row ht b v hb
+  have hld : ld = List.replicate nx (c1 t) := by
+    obtain ⟨ht', rfl⟩ := List.getElem?_eq_some_iff.mp e1
+    exact hrows t ht'
+  have hwl : w.length = nx := by
+    obtain ⟨ht', rfl⟩ := List.getElem?_eq_some_iff.mp e2
+    exact hlen t ht'
+  rw [hld, ← hwl] at hband
+  refine ⟨w, m, f, c, e2, e4, e5, hband, ?_⟩
+  intro x0 f0 rest hc hs
+  subst hc
+  by_cases hfl : f.length = w.length
+  · rw [bandflux_loglinear_closed (c1 t) x0 f0 rest w m f (hc1 t) hfl hs] at hband
+    exact (Except.ok.inj hband).symm
+  · exfalso
+    unfold bandFlux at hband
+    obtain ⟨r, -, hb2⟩ := C13.bind_ok hband
+    rw [if_neg hfl] at hb2
+    cases hb2
+
+
+/-- **numpy's pairwise summation gives the same band fluxes** as the left-to-right sums of `filterMean` in
+exact arithmetic - for a supplied fitted image and end to end; so every theorem about `filterThru` /
+`filterThruE2E` holds for the pairwise model that the harness compares with the real function to the last bits -/
+theorem pairwise_same_value (log10 : K → K) (solve : Array (Array K) → Array K → R (Array K)) (toair : Bool)
+    (lds : List (List K)) (curves : List (List (K × K))) (wave : List (List K))
+    (masks : Option (List (List Bool))) (flux : List (List K)) :
+    filterThruG filterMeanPw toair lds curves wave masks flux = filterThru toair lds curves wave masks flux ∧
+    filterThruE2EPw log10 solve toair curves wave masks flux
+      = filterThruE2E log10 solve toair curves wave masks flux := by
+  refine ⟨filterThruG_filterMeanPw toair lds curves wave masks flux, ?_⟩
+  unfold filterThruE2EPw filterThruE2E
+  simp only [filterThruG_filterMeanPw]
+
+
+/-- **the argument handling in front**: another filter prefix and a call with neither `waveimg` nor `wset` are refused
+(`ValueError`); a wavelength image wins over a trace set (the trace set is not even looked at); a trace set alone is
+the image `10 ** traceset2xy(wset)[1]` - so `wset` and image form of the same wavelengths give the same band fluxes,
+and a trace set that cannot be evaluated fails the call -/
+theorem top_dispatch (log10 pow10 : K → K) (solve : Array (Array K) → Array K → R (Array K)) (toair : Bool)
+    (curves : List (List (K × K))) (masks : Option (List (List Bool))) (flux : List (List K)) :
+    (∀ wave wset, filterThruTop log10 pow10 solve false toair curves wave wset masks flux = .error "ValueError") ∧
+    filterThruTop log10 pow10 solve true toair curves none none masks flux = .error "ValueError" ∧
+    (∀ w wset, filterThruTop log10 pow10 solve true toair curves (some w) wset masks flux
+      = filterThruE2E log10 solve toair curves w masks flux) ∧
+    (∀ (t : TSet K) p, t.xy none false = .ok p →
+      filterThruTop log10 pow10 solve true toair curves none (some t) masks flux
+        = filterThruE2E log10 solve toair curves (p.2.toList.map (fun r => r.toList.map pow10)) masks flux) ∧
+    (∀ (t : TSet K) e, t.xy none false = .error e →
+      filterThruTop log10 pow10 solve true toair curves none (some t) masks flux = .error e) := by
+  refine ⟨fun _ _ => rfl, rfl, fun _ _ => rfl, ?_, ?_⟩
+  · intro t p h
+    simp only [filterThruTop, Bool.not_true, Bool.false_eq_true, if_false, h]
+    rfl
+  · intro t e h
+    simp only [filterThruTop, Bool.not_true, Bool.false_eq_true, if_false, h]
+    rfl
+
 end
 
 /-! ## non-vacuity: the hypotheses of the theorems are met by concrete non-trivial inputs -/
@@ -645,6 +805,19 @@ example : ∀ x ∈ ([1 / 2, 7 / 2, 4] : List ℝ), x < 1 ∨ ∀ q ∈ ([(1, 0)
   · right; intro q hq
     simp only [List.mem_cons, List.not_mem_nil, or_false] at hq
     rcases hq with rfl | rfl | rfl <;> norm_num
+
+
+/-- the log-linear hypotheses of `fit_loglinear` / `e2e_loglinear_closed` are met by a concrete 5-pixel row
+(`log10 := id`, λ = 0,1,2,3,4: c0 = 0, c1 = 1 ≠ 0), and the normal matrix of its fit is positive definite -/
+example : (∀ i (hi : i < ([0, 1, 2, 3, 4] : List ℝ).length),
+      (fun x : ℝ => x) ([0, 1, 2, 3, 4] : List ℝ)[i] = 0 + 1 * (i : ℝ)) ∧ (1 : ℝ) ≠ 0 ∧
+    ([0, 1, 2, 3, 4] : List ℝ).length = 5 ∧ FitPD (K := ℝ) 5 := by
+  refine ⟨?_, one_ne_zero, rfl, fitPD 5 (le_refl _)⟩
+  intro i hi
+  have hi' : i < 5 := hi
+  have : i = 0 ∨ i = 1 ∨ i = 2 ∨ i = 3 ∨ i = 4 := by omega
+  rcases this with rfl | rfl | rfl | rfl | rfl <;>
+    simp only [List.getElem_cons_zero, List.getElem_cons_succ] <;> push_cast <;> ring
 
 end
 end PydlVerif.C19
